@@ -73,6 +73,50 @@ def mkPSIUnit (pid : Nat) (secs : List (PSISection × Bytes)) : Gen TSUnit := do
   return { pid := pid, payload := bytes, data := secs.map fun (s, _) => dataOfSection s, psi := true, chunks := chunks,
            firstAF := af, padPayload := pad, sectionsEnd := 1 + ptr + ((secs.map (·.2.length)).sum) }
 
+/-- payload offsets at which an inner section starts (a later section of the same unit) -/
+def innerStarts (ptr : Nat) (secs : List Bytes) : List Nat :=
+  let rec go (l : List Bytes) (acc : Nat) : List Nat :=
+    match l with
+    | [] => []
+    | [_] => []
+    | s :: r => (acc + s.length) :: go r (acc + s.length)
+  go secs (1 + ptr)
+
+def chunkEdges (cs : List Nat) : List Nat :=
+  (cs.foldl (fun (acc : List Nat × Nat) c => (acc.1 ++ [acc.2 + c], acc.2 + c)) ([], 0)).1
+
+/-- A PAT/PMT unit of several sections. ISO/IEC 13818-1 2.4.4.1: a packet in which a section begins carries
+payload_unit_start_indicator = 1 and a pointer_field, so in a conformant stream no inner section starts on the first
+payload byte of a continuation packet; cut points are redrawn until none does (`conformant`), or one is forced there
+(`conformant = false`: the stratum outside the property's domain, compared with the model only). -/
+def mkPSIUnitMulti (pid : Nat) (secs : List (PSISection × Bytes)) (conformant : Bool) : Gen TSUnit := do
+  let ptr ← (do if (← chance 2 3) then pure 0 else randBelow 6)
+  let stuff ← (do if (← chance 1 2) then pure 0 else randBelow 6)
+  let bytes := unitEncode ptr (secs.map (·.2)) stuff
+  let inner := innerStarts ptr (secs.map (·.2))
+  let pad ← randBool
+  let mk (chunks : List Nat) (af : Option PacketAdaptationField) : TSUnit :=
+    { pid := pid, payload := bytes, data := secs.map fun (s, _) => dataOfSection s, psi := true, chunks := chunks,
+      firstAF := af, padPayload := pad, sectionsEnd := 1 + ptr + ((secs.map (·.2.length)).sum) }
+  if conformant then
+    let mut fuel := 12
+    while fuel > 0 do
+      fuel := fuel - 1
+      let (chunks, af) ← mkChunks bytes.length (← chance 1 4)
+      if (chunkEdges chunks).all (fun e => !inner.contains e) then return mk chunks af
+    -- one-byte first chunk, then full packets: edges at 1 + 184k; fall back to a single section if that collides too
+    let (s1, _) := secs.headD default
+    let c2 := 1 :: (List.replicate ((bytes.length - 1) / 184) 184 ++ (if (bytes.length - 1) % 184 = 0 then [] else [(bytes.length - 1) % 184]))
+    if (chunkEdges c2).all (fun e => !inner.contains e) then return mk c2 none
+    let b1 := unitEncode 0 [(secs.headD default).2] 0
+    return { pid := pid, payload := b1, data := [dataOfSection s1], psi := true, chunks := [b1.length], padPayload := pad, sectionsEnd := b1.length }
+  else
+    -- force a packet edge on the first inner section start
+    let e := inner.headD bytes.length
+    let firstPart := if e ≤ 184 then [e] else (e % 184 + (if e % 184 = 0 then 184 else 0)) :: List.replicate ((e - 1) / 184) 184
+    let rest ← genRestChunks (bytes.length - e)
+    return mk (firstPart ++ rest) none
+
 def patSection (pmtPIDs : List Nat) : Gen (PSISection × Bytes) := do
   let tsid ← randField 16
   let progs := pmtPIDs.zipIdx.map fun (pid, i) => ({ programMapID := pid, programNumber := i + 1 } : PATProgram)
@@ -85,6 +129,7 @@ structure StreamCfg where
   dvb : Bool := true
   unitsPerPID : Nat := 2
   maxPayload : Nat := 600
+  multiPMT : Nat := 1
 
 def shuffle {α} (xs : List α) : Gen (List α) := do
   let mut a := xs.toArray
@@ -99,15 +144,16 @@ def shuffle {α} (xs : List α) : Gen (List α) := do
 /-- a well-formed stream: PAT first, then everything else merged in a random order-preserving way -/
 def genStream (cfg : StreamCfg) : Gen StreamModel := do
   let mut units : List TSUnit := []
-  -- PAT (single section: see known finding on multi-section PAT/PMT units)
+  -- PAT: one section; PMT units: 1..multiPMT sections (cut points conformant, see mkPSIUnitMulti)
   if !cfg.pmtPIDs.isEmpty then
     let ps ← patSection cfg.pmtPIDs
     let u ← mkPSIUnit 0 [ps]
     units := units ++ [u]
     for pmtPID in cfg.pmtPIDs do
       for _ in [0:cfg.unitsPerPID] do
-        let s ← genSectionOfKind 1 false
-        let u ← mkPSIUnit pmtPID [s]
+        let nsec ← (do if cfg.multiPMT > 1 ∧ (← chance 1 2) then randRange 2 cfg.multiPMT else pure 1)
+        let ss ← genList nsec (genSectionOfKind 1 false)
+        let u ← (if nsec = 1 then mkPSIUnit pmtPID ss else mkPSIUnitMulti pmtPID ss true)
         units := units ++ [u]
   if cfg.dvb then
     for (pid, kind) in [(0x11, 2), (0x10, 3), (0x12, 4), (0x14, 5)] do
